@@ -85,7 +85,7 @@ class MinSetCover():
         # Objective function
         self.solver.set_objective(
             self.solver.quicksum(
-                self.subset_weights[i] * self.subset_vars[i]
+                float(self.subset_weights[i]) * self.subset_vars[i]
                 for i in range(len(self.subsets))
             )
         )
